@@ -10,6 +10,24 @@ CHECKS = {
          "Go string comparison is byte-wise order; inputs longer than the bounds are not covered.", "§5 C12"),
 }
 
+CHECKS.update({
+ "C04": ("bounded exhaustive enumeration: complete hash tables of all short sequences, every rotation / strand / case / spelling variant looked up and compared",
+         "The real Hash is evaluated on every ACGT string up to the stated length (and every IUPAC string up to a shorter length) under all four topology/strandedness combinations and both nucleic-acid types; every rotation offset, the reverse complement (independent complement table), every case mask and the U/T respelling of every string are compared inside the complete table. The bounded space is covered completely.",
+         "Oracle complement table; U under DNA and Z are outside the quantifier; longer sequences are not covered.", "§5 C04"),
+ "C05": ("bounded exhaustive enumeration: partition of all short inputs by hash compared with the brute-force orbit partition; value recomputed independently",
+         "For every ACGT string up to the stated length, every IUPAC string and every protein string up to shorter lengths, under all flag combinations, the real hash must equal v1_<tag>_<BLAKE3 of the brute-force canonical representative>, and the partition of inputs by hash must coincide with the partition by brute-force canonical form (both merging and splitting are detected); every printable non-alphabet byte at every position, bad type strings and double-stranded proteins must be rejected.",
+         "BLAKE3 library trusted (same library as poly); non-ASCII letters not enumerated.", "§5 C05"),
+ "C06": ("complete enumeration of 25 tables x 64 codons plus all short DNA strings against an independently transcribed NCBI reference",
+         "All 25 table ids x all 64 codons are compared with NCBI's codes written as differences from the standard code; start/stop sets compared as sets; every 2-codon string, every trailing partial codon, every case mask and every codon-boundary split of all 3-codon strings is translated by the real Translate and compared with the reference translation. The codon-assignment clause is covered completely; the structural clauses within the stated lengths.",
+         "Oracle's transcription of NCBI gc.prt; DNA strings longer than 3 codons not covered (translation is codon-local).", "§5 C06"),
+ "C11": ("bounded exhaustive enumeration of IUPAC strings against set-semantics reference",
+         "Every string over the 15 upper-case IUPAC codes up to the stated length and over the 30 mixed-case codes up to a shorter length is fed to the real ReverseComplement/Complement/Reverse/IsPalindromic/AllVariantsIUPAC; results are compared with an oracle in which codes are base sets and complements are derived by set complementation; every split point is checked for the anti-homomorphism law; variant lists are compared as multisets with the Cartesian product.",
+         "The 15-entry code-to-set table of the oracle.", "§5 C11"),
+ "C19": ("bounded exhaustive enumeration of all short oligos on a full concentration grid against an independent nearest-neighbour reference",
+         "Every ACGT sequence of length 2..7 (8 thorough), all case masks for short ones, on the full 5x4x4 grid of oligo/sodium/magnesium concentrations: dH, dS and Tm of the real SantaLucia are compared (1e-6) with an independently held 10-stack table (self-validated against the published dG37 column), enthalpy must not vary with concentration, Tm must strictly increase between all grid neighbours inside the duplex-forming regime; MeltingTemp and MarmurDoty compared with their definitions.",
+         "Oracle parameter table; grid points only (no off-grid concentrations); 3'-terminal A/T convention as documented by the function.", "§5 C19"),
+})
+
 NOT_YET = {}
 
 props = [json.loads(l) for l in open('/verif/properties.jsonl')]
